@@ -20,7 +20,7 @@ def main():
     if sh(["git", "-C", "/repo", "status", "--porcelain", "--untracked-files=no"]).stdout.strip():
         print("refusing: /repo has uncommitted changes")
         return 2
-    ids = sys.argv[1:] or sorted(os.listdir(SEEDED))
+    ids = sys.argv[1:] or sorted(d for d in os.listdir(SEEDED) if not d.startswith("harmless_"))
     rows = []
     for sid in ids:
         d = os.path.join(SEEDED, sid)
